@@ -2,6 +2,7 @@ mod analysis;
 mod check;
 mod dispatch;
 mod exec;
+mod meta;
 mod monitors;
 mod profiles;
 mod program;
